@@ -200,7 +200,18 @@ def sim_flow(ctx: Ctx):
     scp = scp[0]
     val = rd["value"]
     dpc = val[1] if val[0] == "sub" and val[1][0] == "call" else None
-    ok_v = dpc is not None and val[2] == ("const", 2) and dpc[2] == (("sub", scp, ("const", 1)),)
+    ccv_term = ("sub", scp, ("const", 1))
+    ok_v = None
+    inner = next((x for x in walk(val) if x[0] == "sub" and x[2] == ("const", 2) and x[1][0] == "call"
+                  and ccv_term in list(x[1][2]) + [v for _k, v in x[1][3]]), None)
+    if inner is not None and inner != val:
+        _ops, bad = _value_ops(val, inner, None)
+        ok_v = False if bad else None
+    elif dpc is not None and val[2] == ("const", 2):
+        args = list(dpc[2]) + [v for _k, v in dpc[3]]
+        ok_v = True if ccv_term in args else None if any(x == ccv_term or x == scp for a in args for x in walk(a)) else False
+    elif not any(x == scp for x in walk(val)):
+        ok_v = False  # the value does not come from this period's conditional continuation values at all
     ctx.ob("FLOW:value-from-maxima", ok_v, prog.where(val),
            "the reported value is the discrete maximum of the conditional maxima (second result of the policy function)"
            if ok_v else "the reported value is not reduced from the conditional maxima", lhs=val)
